@@ -65,12 +65,15 @@ type Term struct {
 
 // Terms is a hash-consing store.
 type Terms struct {
+	byID map[int]*Term
 	tab  map[string]*Term
 	next int
 	refs map[interface{}]int
 }
 
-func NewTerms() *Terms { return &Terms{tab: map[string]*Term{}, refs: map[interface{}]int{}} }
+func NewTerms() *Terms {
+	return &Terms{tab: map[string]*Term{}, refs: map[interface{}]int{}, byID: map[int]*Term{}}
+}
 
 func (ts *Terms) refID(r interface{}) int {
 	if r == nil {
@@ -84,7 +87,23 @@ func (ts *Terms) refID(r interface{}) int {
 	return id
 }
 
+// find returns the existing term structurally equal to t, or nil.
+func (ts *Terms) find(t Term) *Term { return ts.tab[ts.key(t)] }
+
 func (ts *Terms) mk(t Term) *Term {
+	k := ts.key(t)
+	if x, ok := ts.tab[k]; ok {
+		return x
+	}
+	ts.next++
+	t.ID = ts.next
+	x := &t
+	ts.tab[k] = x
+	ts.byID[t.ID] = x
+	return x
+}
+
+func (ts *Terms) key(t Term) string {
 	var sb strings.Builder
 	fmt.Fprintf(&sb, "%d|%d|%d|%d|", t.Kind, t.Op, t.N, ts.refID(t.Ref))
 	if t.Var != nil {
@@ -103,15 +122,7 @@ func (ts *Terms) mk(t Term) *Term {
 	for _, a := range t.Args {
 		fmt.Fprintf(&sb, "%d,", a.ID)
 	}
-	k := sb.String()
-	if x, ok := ts.tab[k]; ok {
-		return x
-	}
-	ts.next++
-	t.ID = ts.next
-	x := &t
-	ts.tab[k] = x
-	return x
+	return sb.String()
 }
 
 func (ts *Terms) Const(v constant.Value, typ types.Type) *Term {
